@@ -157,6 +157,9 @@ func genEnvCase(r *gen.Rand, cfgName string, mode string) *EnvCase {
 	x := newEnvExec(t0)
 	defer x.close()
 	g := &envGen{r: r, x: x, cs: cs, pol: envPolicies()[cfgName], keys: map[string][]int64{}}
+	if mode == "leak" {
+		x.enableLeakScan()
+	}
 	g.parts = []string{"p1", "p2", "p3"}[:1+r.Intn(3)]
 	nfact := 1 + r.Intn(2)
 	var facts []int
@@ -290,8 +293,8 @@ func genEnvCase(r *gen.Rand, cfgName string, mode string) *EnvCase {
 	for _, f := range facts {
 		g.do(EnvOp{K: "closefactory", F: f})
 	}
-	cs.Recs = x.recInfo
-	cs.Revs = x.revs
+	cs.TornDown = true
+	x.finishCase(cs)
 	return cs
 }
 
@@ -300,12 +303,17 @@ func replayEnvCase(in *EnvCase) *EnvCase {
 	cs := &EnvCase{T0: in.T0, Cfg: in.Cfg, Tags: in.Tags}
 	x := newEnvExec(in.T0)
 	defer x.close()
+	for _, tg := range in.Tags {
+		if len(tg) >= 5 && tg[len(tg)-5:] == "/leak" {
+			x.enableLeakScan()
+		}
+	}
 	for _, op := range in.Ops {
 		cs.Ops = append(cs.Ops, op)
 		cs.Obs = append(cs.Obs, x.do(op))
 	}
-	cs.Recs = x.recInfo
-	cs.Revs = x.revs
+	x.finishCase(cs)
+	cs.TornDown = in.TornDown
 	return cs
 }
 
